@@ -115,3 +115,66 @@ class ManySamples(Contract):
             return [("returns_the_list_of_samples", BoolVal(False))]
         return [("returns_only_for_a_positive_sample_count", self.n >= 1), ("exactly_n_samples", value.n == self.n),
                 ("sample_k_is_a_function_of_the_integer_seed_and_k", ForAll([k_], Implies(And(0 <= k_, k_ < value.n), value.raw(k_) == SINGLE(RSF(self.seed, k_)))))]
+
+
+class BootstrapArguments(Contract):
+    """The bootstrap part of MetricFrame.__init__ (from `self._ci_quantiles = ci_quantiles` to the end): argument validation (C20/C18) and the wiring of the
+    resampling call (same data frame, annotated functions, feature names and the caller's random_state / n_boot as the point estimates)."""
+    source, function = "fairlearn/metrics/_metric_frame.py", "MetricFrame.__init__"
+
+    def __init__(self, n_boot_kind, ci_kind):
+        self.nk, self.ck = n_boot_kind, ci_kind
+        self.variant = f"[n_boot:{n_boot_kind},ci:{ci_kind}]"
+
+    def body(self, fn):
+        import ast
+        for idx, s in enumerate(fn.body):
+            if isinstance(s, ast.Assign) and ast.unparse(s.targets[0]) == "self._ci_quantiles":
+                return fn.body[idx:]
+        raise Unsupported("start of the bootstrap block not found")
+
+    def params(self, eng, st):
+        from ..pyvc.core import PyList
+        self.nb = {"none": None, "int": Int("n_boot"), "float": z3.Real("n_boot_f")}[self.nk]
+        qs = {"none": None, "empty": [], "one": [z3.Real("q0")], "two": [z3.Real("q0"), z3.Real("q1")], "int_entry": [z3.Real("q0"), Int("qi")]}[self.ck]
+        self.qs = qs
+        self.ci = None if qs is None else PyList(qs)
+        self.a = {"all_data": Abstract("all_data"), "annotated_funcs": Abstract("funcs"), "random_state": Abstract("rs")}
+        st.env.update(self.a)
+        st.env.update({"self": Obj("MetricFrame", {"_sf_names": Abstract("sfn"), "_cf_names": Abstract("cfn")}), "n_boot": self.nb, "ci_quantiles": self.ci})
+        self.gen = None
+        self.pop = None
+
+    def on_call(self, eng, st, node, name, recv, args, kwargs):
+        if name == "generate_bootstrap_samples":
+            st.ghost["gen"] = dict(kwargs)
+            return Abstract("samples")
+        if name == "_populate_results_ci":
+            st.ghost["pop"] = list(args)
+            return None
+        if name == "str":
+            return "x"
+        return NotImplemented
+
+    def post(self, eng, st, status, value):
+        q_ok = BoolVal(True)
+        if self.qs:
+            q_ok = And(*[And(q > 0, q < 1) if z3.is_real(q) else BoolVal(False) for q in self.qs])
+        have_ci = bool(self.qs)
+        have_n = self.nb is not None
+        n_ok = (self.nb >= 1) if self.nk == "int" else BoolVal(False)
+        if status == "raise":
+            bad = BoolVal(have_ci != have_n) if not (have_ci and have_n) else z3.Not(And(n_ok, q_ok))
+            return [("raises_only_for_invalid_bootstrap_arguments", bad), ("raises_ValueError", BoolVal(value.typ == "ValueError"))]
+        out = [("both_or_neither_bootstrap_argument", BoolVal(have_ci == have_n))]
+        g, p = st.ghost.get("gen"), st.ghost.get("pop")
+        if have_ci and have_n:
+            out += [("n_boot_is_a_positive_int", n_ok), ("every_quantile_is_a_float_strictly_between_0_and_1", q_ok),
+                    ("resampling_uses_the_point_estimates_data_functions_names_seed_and_n_boot",
+                     BoolVal(g is not None and g.get("n_samples") is self.nb and g.get("random_state") is self.a["random_state"] and g.get("data") is self.a["all_data"]
+                             and g.get("annotated_functions") is self.a["annotated_funcs"] and g.get("sensitive_feature_names") is st.env["self"].fields["_sf_names"]
+                             and g.get("control_feature_names") is st.env["self"].fields["_cf_names"])),
+                    ("intervals_computed_from_those_samples_at_the_requested_quantiles", BoolVal(p is not None and len(p) == 2 and isinstance(p[0], Abstract) and p[0].tag == "samples" and p[1] is st.env["ci_quantiles"]))]
+        else:
+            out.append(("no_resampling_without_bootstrap_arguments", BoolVal(g is None)))
+        return out
